@@ -1,10 +1,23 @@
-//! C09 harness: every font allsorts writes is projected (independent readers, vh::proj) into
-//! the vocabulary of SfntWrite.tla and handed to the TLC judge (Trace_SfntWrite).
+//! C09 harness: every font allsorts writes is projected (independent readers, vh::proj and
+//! c09_written/glyphs.rs) into the vocabulary of SfntWrite.tla and handed to the TLC judge
+//! (Trace_SfntWrite). Nothing in this file decides the property.
 //!
 //!   c09_written replay <cases.ndjson> <trace.ndjson>
 //!       CASE lines of MC_SfntWrite (table adds in TLC-chosen order) -> real FontBuilder -> events
-//!   c09_written record <seed> <max_fonts> <trace.ndjson>
-//!       whole_font / subset / instance on repository fonts, WOFF2-reconstructed table sets
+//!   c09_written record <seed> <max_fonts> <trace.ndjson> [all]
+//!       synthesized families (always):
+//!         shapes  composites of every argument width / transform kind, numberOfHMetrics < numGlyphs,
+//!                 short and long loca -> whole_font, subset, prince::subset (four cmap targets)
+//!         var     variable TrueType fonts whose component offsets vary across the byte / word
+//!                 argument boundary -> variations::instance at several coordinates
+//!         big     short-loca fonts encoded to WOFF2 by the harness's own encoder, sized so that the
+//!                 glyf table allsorts rebuilds is below / exactly 131070 / 131072 / above
+//!                 -> Woff2TableProvider table sets, subset and whole_font on that provider
+//!       repository fonts chosen by MEASURED features (survey + greedy cover, then by seed):
+//!         whole_font / subset / prince::subset / instance, WOFF2 re-encodings of TrueType fonts
+//!         chosen by the measured size of the rebuilt glyf table.
+//!   c09_written survey
+//!       measured features of every repository font (diagnostic)
 use allsorts::binary::read::ReadScope;
 use allsorts::cff::cff2::CFF2;
 use allsorts::cff::outline::CFF2Outlines;
@@ -12,11 +25,12 @@ use allsorts::cff::CFF;
 use allsorts::font::Font;
 use allsorts::font_data::FontData;
 use allsorts::outline::{OutlineBuilder, OutlineSink};
+use allsorts::subset::prince::{self, PrinceCmapTarget};
 use allsorts::subset::{subset, whole_font};
 use allsorts::tables::glyf::GlyfTable;
 use allsorts::tables::loca::LocaTable;
 use allsorts::tables::variable_fonts::fvar::FvarTable;
-use allsorts::tables::{Fixed, FontTableProvider, HeadTable, MaxpTable};
+use allsorts::tables::{Fixed, FontTableProvider, HeadTable, HheaTable, HmtxTable, MaxpTable};
 use allsorts::tag;
 use pathfinder_geometry::line_segment::LineSegment2F;
 use pathfinder_geometry::vector::Vector2F;
@@ -24,13 +38,31 @@ use rand::rngs::StdRng;
 use rand::seq::SliceRandom;
 use rand::{Rng, SeedableRng};
 use serde_json::{json, Value};
-use vh::fontgen::{tag_str, tag_u32};
+use std::collections::{BTreeMap, BTreeSet};
+use vh::fontgen::{be16, tag_str, tag_u32};
 use vh::proj::{cross_facts, project_sfnt};
 use vh::sup::{guarded, Outcome};
 use vh::util::{read_ndjson, repo_fonts, NdWriter};
 
+#[allow(dead_code)]
+#[path = "c09_written/brotli.rs"]
+mod brotli;
+#[allow(dead_code)]
+#[path = "c09_written/enc.rs"]
+mod enc;
+#[allow(dead_code)]
+#[path = "c09_written/glyph.rs"]
+mod glyph;
+#[path = "c09_written/glyphs.rs"]
+mod glyphs;
+#[path = "c09_written/synth.rs"]
+mod synth;
+
+type TableMap = BTreeMap<u32, Vec<u8>>;
+
+#[derive(Clone)]
 struct MapProvider {
-    tables: std::collections::BTreeMap<u32, Vec<u8>>,
+    tables: TableMap,
 }
 impl FontTableProvider for MapProvider {
     fn table_data(&self, tag: u32) -> Result<Option<std::borrow::Cow<'_, [u8]>>, allsorts::error::ParseError> {
@@ -42,6 +74,16 @@ impl FontTableProvider for MapProvider {
     fn table_tags(&self) -> Option<Vec<u32>> {
         Some(self.tables.keys().cloned().collect())
     }
+}
+
+fn tables_of(provider: &impl FontTableProvider) -> TableMap {
+    let mut m = TableMap::new();
+    for t in provider.table_tags().unwrap_or_default() {
+        if let Ok(Some(d)) = provider.table_data(t) {
+            m.insert(t, d.to_vec());
+        }
+    }
+    m
 }
 
 struct NullSink(usize);
@@ -63,60 +105,67 @@ impl OutlineSink for NullSink {
     }
 }
 
-/// "the library itself can load the result and query every retained glyph"
-fn reload_facts(bytes: &[u8]) -> Value {
-    let r = guarded(|| -> Result<(i64, i64), String> {
-        let fd = ReadScope::new(bytes).read::<FontData<'_>>().map_err(|e| format!("{:?}", e))?;
-        let provider = fd.table_provider(0).map_err(|e| format!("{:?}", e))?;
-        let maxp = ReadScope::new(&provider.read_table_data(tag::MAXP).map_err(|e| format!("{:?}", e))?)
-            .read::<MaxpTable>()
-            .map_err(|e| format!("{:?}", e))?;
-        let n = maxp.num_glyphs;
-        let mut outlines = 0i64;
-        if provider.has_table(tag::GLYF) {
-            let head = ReadScope::new(&provider.read_table_data(tag::HEAD).map_err(|e| format!("{:?}", e))?)
-                .read::<HeadTable>()
-                .map_err(|e| format!("{:?}", e))?;
-            let loca_data = provider.read_table_data(tag::LOCA).map_err(|e| format!("{:?}", e))?;
-            let loca = ReadScope::new(&loca_data)
-                .read_dep::<LocaTable<'_>>((usize::from(n), head.index_to_loc_format))
-                .map_err(|e| format!("{:?}", e))?;
-            let glyf_data = provider.read_table_data(tag::GLYF).map_err(|e| format!("{:?}", e))?;
-            let mut glyf = ReadScope::new(&glyf_data).read_dep::<GlyfTable<'_>>(&loca).map_err(|e| format!("{:?}", e))?;
-            for g in 0..n {
-                if glyf.visit(g, &mut NullSink(0)).is_ok() {
-                    outlines += 1;
-                }
+/// "the library itself can load the result and query every retained glyph": outline and advance
+/// of every glyph through allsorts' own readers.
+fn reload_provider<P: FontTableProvider>(provider: P) -> Result<(i64, i64), String> {
+    let e = |e: allsorts::error::ParseError| format!("{:?}", e);
+    let maxp = ReadScope::new(&provider.read_table_data(tag::MAXP).map_err(e)?).read::<MaxpTable>().map_err(e)?;
+    let n = maxp.num_glyphs;
+    let mut outlines = 0i64;
+    if provider.has_table(tag::GLYF) {
+        let head = ReadScope::new(&provider.read_table_data(tag::HEAD).map_err(e)?).read::<HeadTable>().map_err(e)?;
+        let loca_data = provider.read_table_data(tag::LOCA).map_err(e)?;
+        let loca = ReadScope::new(&loca_data).read_dep::<LocaTable<'_>>((usize::from(n), head.index_to_loc_format)).map_err(e)?;
+        let glyf_data = provider.read_table_data(tag::GLYF).map_err(e)?;
+        let mut glyf = ReadScope::new(&glyf_data).read_dep::<GlyfTable<'_>>(&loca).map_err(e)?;
+        for g in 0..n {
+            if glyf.visit(g, &mut NullSink(0)).is_ok() {
+                outlines += 1;
             }
-        } else if provider.has_table(tag::CFF) {
-            let d = provider.read_table_data(tag::CFF).map_err(|e| format!("{:?}", e))?;
-            let mut cff = ReadScope::new(&d).read::<CFF<'_>>().map_err(|e| format!("{:?}", e))?;
-            for g in 0..n {
-                if cff.visit(g, &mut NullSink(0)).is_ok() {
-                    outlines += 1;
-                }
-            }
-        } else if provider.has_table(tag::CFF2) {
-            let d = provider.read_table_data(tag::CFF2).map_err(|e| format!("{:?}", e))?;
-            let cff2 = ReadScope::new(&d).read::<CFF2<'_>>().map_err(|e| format!("{:?}", e))?;
-            let mut o = CFF2Outlines { table: &cff2, tuple: None };
-            for g in 0..n {
-                if o.visit(g, &mut NullSink(0)).is_ok() {
-                    outlines += 1;
-                }
-            }
-        } else {
-            outlines = n as i64;
         }
-        let mut font = Font::new(provider).map_err(|e| format!("{:?}", e))?;
-        let mut advances = 0i64;
+    } else if provider.has_table(tag::CFF) {
+        let d = provider.read_table_data(tag::CFF).map_err(e)?;
+        let mut cff = ReadScope::new(&d).read::<CFF<'_>>().map_err(e)?;
+        for g in 0..n {
+            if cff.visit(g, &mut NullSink(0)).is_ok() {
+                outlines += 1;
+            }
+        }
+    } else if provider.has_table(tag::CFF2) {
+        let d = provider.read_table_data(tag::CFF2).map_err(e)?;
+        let cff2 = ReadScope::new(&d).read::<CFF2<'_>>().map_err(e)?;
+        let mut o = CFF2Outlines { table: &cff2, tuple: None };
+        for g in 0..n {
+            if o.visit(g, &mut NullSink(0)).is_ok() {
+                outlines += 1;
+            }
+        }
+    } else {
+        outlines = n as i64;
+    }
+    let mut advances = 0i64;
+    if provider.has_table(tag::CMAP) {
+        let mut font = Font::new(provider).map_err(e)?;
         for g in 0..n {
             if font.horizontal_advance(g).is_some() {
                 advances += 1;
             }
         }
-        Ok((advances, outlines))
-    });
+    } else {
+        // a subset written without cmap (prince "omit"): Font::new needs a cmap, the tables do not
+        let hhea = ReadScope::new(&provider.read_table_data(tag::HHEA).map_err(e)?).read::<HheaTable>().map_err(e)?;
+        let hd = provider.read_table_data(tag::HMTX).map_err(e)?;
+        let hmtx = ReadScope::new(&hd).read_dep::<HmtxTable<'_>>((usize::from(n), usize::from(hhea.num_h_metrics))).map_err(e)?;
+        for g in 0..n {
+            if hmtx.horizontal_advance(g).is_ok() {
+                advances += 1;
+            }
+        }
+    }
+    Ok((advances, outlines))
+}
+
+fn reload_value(r: Outcome<Result<(i64, i64), String>>) -> Value {
     match r {
         Outcome::Returned(Ok((a, o))) => json!({"tried": true, "ok": true, "advances": a, "outlines": o, "why": ""}),
         Outcome::Returned(Err(e)) => json!({"tried": true, "ok": false, "advances": -1, "outlines": -1, "why": e}),
@@ -124,21 +173,146 @@ fn reload_facts(bytes: &[u8]) -> Value {
     }
 }
 
+fn reload_sfnt(bytes: &[u8]) -> Value {
+    reload_value(guarded(|| -> Result<(i64, i64), String> {
+        let fd = ReadScope::new(bytes).read::<FontData<'_>>().map_err(|e| format!("{:?}", e))?;
+        let provider = fd.table_provider(0).map_err(|e| format!("{:?}", e))?;
+        reload_provider(provider)
+    }))
+}
+
 fn no_reload() -> Value {
     json!({"tried": false, "ok": false, "advances": -1, "outlines": -1, "why": ""})
 }
 
-fn cross_of_sfnt(bytes: &[u8], reload: bool, built: bool) -> Value {
+/// What the independent readers measured on the SOURCE of an operation (for relative facts and
+/// for the coverage counters).
+#[derive(Clone, Default)]
+struct SrcFacts {
+    kind: String,
+    features: BTreeSet<String>,
+    /// head.flags bit 1 set and every outlined glyph has lsb = xMin
+    lsb_clean: bool,
+    composites: Vec<u16>,
+    layouts: Vec<glyphs::Layout>,
+}
+
+fn comp_features(l: &glyphs::Layout, f: &mut BTreeSet<String>) {
+    if l.kind != "composite" || !l.ok {
+        return;
+    }
+    if l.flags.len() > 1 {
+        f.insert("comp:multi".into());
+    }
+    if l.instr >= 0 {
+        f.insert("comp:instr".into());
+    }
+    for &fl in &l.flags {
+        f.insert(format!("comp:{}-{}", if fl & 1 != 0 { "word" } else { "byte" }, if fl & 2 != 0 { "xy" } else { "pt" }));
+        f.insert(
+            if fl & 0x08 != 0 {
+                "comp:scale"
+            } else if fl & 0x40 != 0 {
+                "comp:xyscale"
+            } else if fl & 0x80 != 0 {
+                "comp:2x2"
+            } else {
+                "comp:plain"
+            }
+            .into(),
+        );
+    }
+}
+
+/// Features of a table set measured by the independent readers only.
+fn measure(get: &dyn Fn(&str) -> Option<Vec<u8>>) -> SrcFacts {
+    let mut s = SrcFacts::default();
+    let n = get("maxp").and_then(|m| be16(&m, 4)).unwrap_or(0) as usize;
+    let nhm = get("hhea").and_then(|h| be16(&h, 34)).unwrap_or(0) as usize;
+    let head = get("head");
+    let long = head.as_ref().and_then(|h| be16(h, 50)).unwrap_or(0) == 1;
+    let bit1 = head.as_ref().and_then(|h| be16(h, 16)).map(|f| f & 2 != 0).unwrap_or(false);
+    s.kind = if get("glyf").is_some() {
+        "glyf"
+    } else if get("CFF ").is_some() {
+        "cff"
+    } else if get("CFF2").is_some() {
+        "cff2"
+    } else {
+        "none"
+    }
+    .into();
+    s.features.insert(format!("kind:{}", s.kind));
+    if get("fvar").is_some() {
+        s.features.insert("var:fvar".into());
+    }
+    if n > 0 && nhm < n {
+        s.features.insert("nhm<n".into());
+    }
+    if n > 300 {
+        s.features.insert("glyphs>300".into());
+    }
+    if let (Some(glyf), Some(loca)) = (get("glyf"), get("loca")) {
+        s.features.insert(if long { "loca:long" } else { "loca:short" }.into());
+        if let Some(w) = glyphs::walk_glyf(&glyf, &loca, long, n) {
+            for (g, l) in w.layouts.iter().enumerate() {
+                comp_features(l, &mut s.features);
+                if l.kind == "composite" {
+                    s.composites.push(g as u16);
+                }
+            }
+            if let Some(m) = get("hmtx").and_then(|h| glyphs::read_hmtx(&h, n, nhm)) {
+                s.lsb_clean = bit1 && glyphs::lsb_mismatches(&w, &m) == 0;
+                if s.lsb_clean {
+                    s.features.insert("lsb=xMin".into());
+                }
+            }
+            s.layouts = w.layouts;
+        }
+    }
+    s
+}
+
+/// Cross-table facts of a table set: vh::proj::cross_facts + one layout class per distinct glyph
+/// record shape + the lsb / xMin relation that head.flags bit 1 announces.
+fn cross_of(get: &dyn Fn(&str) -> Option<Vec<u8>>, built: (bool, bool, bool), src_lsb_clean: bool) -> (Value, Vec<glyphs::Layout>) {
+    let mut x = cross_facts(get);
+    let n = x["numGlyphs"].as_i64().unwrap_or(-1);
+    let nhm = x["nHM"].as_i64().unwrap_or(-1);
+    let long = x["locFormat"].as_i64() == Some(1);
+    let mut classes: Vec<Value> = vec![];
+    let mut walked = false;
+    let mut lsb_mismatch: i64 = -1;
+    let mut layouts = vec![];
+    if let (Some(glyf), Some(loca), true) = (get("glyf"), get("loca"), n >= 0) {
+        if let Some(w) = glyphs::walk_glyf(&glyf, &loca, long, n as usize) {
+            walked = true;
+            classes = glyphs::classes(&w.layouts);
+            if let (Some(h), true) = (get("hmtx"), nhm >= 0) {
+                if let Some(m) = glyphs::read_hmtx(&h, n as usize, nhm as usize) {
+                    lsb_mismatch = glyphs::lsb_mismatches(&w, &m) as i64;
+                }
+            }
+            layouts = w.layouts;
+        }
+    }
+    let bit1 = get("head").and_then(|h| be16(&h, 16)).map(|f| f & 2 != 0).unwrap_or(false);
+    x["glyphClasses"] = json!(classes);
+    x["glyfWalked"] = json!(walked);
+    x["headLsbBit"] = json!(bit1);
+    x["lsbMismatch"] = json!(lsb_mismatch);
+    x["srcLsbClean"] = json!(src_lsb_clean);
+    x["built"] = json!({"hmtx": built.0, "loca": built.1, "glyf": built.2});
+    x["reload"] = no_reload();
+    (x, layouts)
+}
+
+fn sfnt_getter(bytes: &[u8]) -> impl Fn(&str) -> Option<Vec<u8>> + '_ {
     let dir = vh::fontgen::read_sfnt_dir(bytes, 0);
-    let get = |t: &str| -> Option<Vec<u8>> {
+    move |t: &str| -> Option<Vec<u8>> {
         let dir = dir.as_ref()?;
         vh::fontgen::table_bytes(bytes, dir, t).map(|b| b.to_vec())
-    };
-    let mut x = cross_facts(&get);
-    let can = ["maxp", "hhea", "hmtx", "head", "cmap"].iter().all(|t| get(t).is_some());
-    x["reload"] = if reload && can { reload_facts(bytes) } else { no_reload() };
-    x["built"] = json!({"hmtx": built, "loca": built});
-    x
+    }
 }
 
 struct Rec {
@@ -146,21 +320,82 @@ struct Rec {
     i: u64,
     refused: usize,
     panics: Vec<String>,
+    ops: BTreeMap<String, usize>,
+    /// vacuity counters: how often each family of behaviour was exercised by a judged output
+    fam: BTreeMap<String, usize>,
 }
 impl Rec {
-    fn written(&mut self, case: &str, op: &str, args: Value, bytes: &[u8], reload: bool) {
+    fn new(out: &str) -> Rec {
+        Rec { w: NdWriter::create(out), i: 0, refused: 0, panics: vec![], ops: BTreeMap::new(), fam: BTreeMap::new() }
+    }
+    fn bump(&mut self, k: &str) {
+        *self.fam.entry(k.to_string()).or_default() += 1;
+    }
+    fn op(&mut self, k: &str) {
+        *self.ops.entry(k.to_string()).or_default() += 1;
+    }
+
+    /// Bytes some writing operation returned as a whole font.
+    fn written(&mut self, case: &str, op: &str, args: Value, bytes: &[u8], reload: bool, src: Option<&SrcFacts>) -> Vec<glyphs::Layout> {
         self.i += 1;
+        let built = op == "subset" || op == "instance";
         match project_sfnt(bytes) {
-            Some(p) => self.w.write(&json!({"i": self.i, "case": case, "ev": "Written", "a": {"op": op, "args": args},
-                                            "o": {"sfnt": p, "cross": cross_of_sfnt(bytes, reload, op == "subset" || op == "instance")}})),
-            None => self.w.write(&json!({"i": self.i, "case": case, "ev": "Unreadable", "a": {"op": op, "args": args}, "o": {}})),
+            Some(p) => {
+                let get = sfnt_getter(bytes);
+                // subset copies glyph records it does not have to renumber; instance re-serialises all
+                let lsb_rel = op == "subset" && src.map(|s| s.lsb_clean).unwrap_or(false);
+                let (mut x, layouts) = cross_of(&get, (built, built, op == "instance"), lsb_rel);
+                let can = ["maxp", "hhea", "hmtx", "head"].iter().all(|t| get(t).is_some());
+                if reload && can {
+                    x["reload"] = reload_sfnt(bytes);
+                }
+                if built {
+                    self.count_output(op, &x, &layouts, src);
+                }
+                self.w.write(&json!({"i": self.i, "case": case, "ev": "Written", "a": {"op": op, "args": args}, "o": {"sfnt": p, "cross": x}}));
+                layouts
+            }
+            None => {
+                self.w.write(&json!({"i": self.i, "case": case, "ev": "Unreadable", "a": {"op": op, "args": args}, "o": {}}));
+                vec![]
+            }
+        }
+    }
+
+    /// A table set that is not a file (WOFF2 reconstruction, the bare CFF table of prince::subset).
+    fn tables(&mut self, case: &str, op: &str, args: Value, x: Value) {
+        self.i += 1;
+        self.w.write(&json!({"i": self.i, "case": case, "ev": "Tables", "a": {"op": op, "args": args}, "o": {"cross": x}}));
+    }
+
+    fn count_output(&mut self, op: &str, x: &Value, layouts: &[glyphs::Layout], src: Option<&SrcFacts>) {
+        let mut f = BTreeSet::new();
+        for l in layouts {
+            comp_features(l, &mut f);
+        }
+        if x["has"]["glyf"] == json!(true) {
+            f.insert(if x["locFormat"] == json!(1) { "loca:long" } else { "loca:short" }.to_string());
+        }
+        if x["has"]["cff"] == json!(true) {
+            f.insert("out:cff".into());
+        }
+        if let Some(s) = src {
+            f.insert(format!("src:{}", s.kind));
+            for k in ["nhm<n", "lsb=xMin", "kind:cff-cid"] {
+                if s.features.contains(k) {
+                    f.insert(format!("src:{}", k));
+                }
+            }
+        }
+        for k in f {
+            self.bump(&format!("{}.{}", op, k));
         }
     }
 }
 
 fn replay(cases: &str, out: &str) {
     let cases = read_ndjson(cases);
-    let mut rec = Rec { w: NdWriter::create(out), i: 0, refused: 0, panics: vec![] };
+    let mut rec = Rec::new(out);
     for (ci, case) in cases.iter().enumerate() {
         let adds: Vec<(u32, Vec<u8>)> = case["adds"]
             .as_array()
@@ -176,7 +411,7 @@ fn replay(cases: &str, out: &str) {
         // (in the order of `tags`), then maxp and head, so a table provider over the TLC-chosen
         // tables reaches the same code.
         let r = guarded(|| -> Result<Vec<u8>, String> {
-            let mut prov = MapProvider { tables: std::collections::BTreeMap::new() };
+            let mut prov = MapProvider { tables: TableMap::new() };
             let mut tags = Vec::new();
             for (tag, body) in &adds {
                 prov.tables.insert(*tag, body.clone());
@@ -187,7 +422,9 @@ fn replay(cases: &str, out: &str) {
             whole_font(&prov, &tags).map_err(|e| format!("{:?}", e))
         });
         match r {
-            Outcome::Returned(Ok(bytes)) => rec.written(&format!("g{}", ci), "builder", case["adds"].clone(), &bytes, false),
+            Outcome::Returned(Ok(bytes)) => {
+                rec.written(&format!("g{}", ci), "builder", case["adds"].clone(), &bytes, false, None);
+            }
             Outcome::Returned(Err(_)) => rec.refused += 1,
             Outcome::Panicked(m) => rec.panics.push(m),
         }
@@ -198,32 +435,425 @@ fn replay(cases: &str, out: &str) {
                           "panic_samples": rec.panics.iter().take(3).collect::<Vec<_>>()}));
 }
 
-fn record(seed: u64, max_fonts: usize, out: &str) {
-    let mut rng = StdRng::seed_from_u64(seed);
-    let mut rec = Rec { w: NdWriter::create(out), i: 0, refused: 0, panics: vec![] };
-    let mut fonts = repo_fonts();
-    fonts.shuffle(&mut rng);
-    // variable fonts and CFF fonts first so that a small sample still reaches instance() and CFF subsetting
-    fonts.sort_by_key(|p| {
-        if p.contains("/aots/") {
-            3
-        } else if p.contains("/variable/") || p.ends_with(".woff2") {
-            0
-        } else if p.ends_with(".otf") {
-            1
-        } else {
-            2
+// ---------------------------------------------------------------------------------------------
+// operations
+// ---------------------------------------------------------------------------------------------
+
+fn do_whole_font(rec: &mut Rec, case: &str, name: &str, provider: &impl FontTableProvider, sel: &[u32]) {
+    let r = guarded(|| whole_font(provider, sel));
+    let args = json!({"font": name, "tags": sel.iter().map(|t| tag_str(*t)).collect::<Vec<_>>()});
+    match r {
+        Outcome::Returned(Ok(bytes)) => {
+            rec.written(case, "whole_font", args, &bytes, true, None);
+            rec.op("whole_font");
         }
+        Outcome::Returned(Err(_)) => rec.refused += 1,
+        Outcome::Panicked(m) => rec.panics.push(format!("whole_font {}: {}", name, m)),
+    }
+}
+
+fn do_subset(rec: &mut Rec, case: &str, name: &str, provider: &impl FontTableProvider, ids: &[u16], api: &str, src: &SrcFacts) {
+    let args = json!({"font": name, "api": api, "n_ids": ids.len(), "ids_head": ids.iter().take(12).collect::<Vec<_>>()});
+    let r = guarded(|| match api {
+        "subset" => subset(provider, ids),
+        "prince:macroman" => prince::subset(provider, ids, PrinceCmapTarget::MacRoman, true),
+        "prince:omit" => prince::subset(provider, ids, PrinceCmapTarget::Omit, false),
+        "prince:supplied" => {
+            let mut m = Box::new([0u8; 256]);
+            for (k, _) in ids.iter().enumerate().take(200) {
+                m[32 + k % 200] = k as u8;
+            }
+            prince::subset(provider, ids, PrinceCmapTarget::MacRomanCmap(m), true)
+        }
+        "prince:unrestricted:cid" => prince::subset(provider, ids, PrinceCmapTarget::Unrestricted, true),
+        _ => prince::subset(provider, ids, PrinceCmapTarget::Unrestricted, false),
     });
-    let mut used = 0;
-    let mut ops = std::collections::BTreeMap::<String, usize>::new();
-    for path in fonts {
-        if used >= max_fonts {
+    match r {
+        Outcome::Returned(Ok(bytes)) => {
+            if api.starts_with("prince") && src.kind != "glyf" {
+                // prince::subset of a CFF / CFF2 source returns the bare CFF table, not a font: the
+                // only other "table" it has to agree with is the glyph list it was given
+                let cff = bytes.clone();
+                let n_ids = ids.len() as u16;
+                let get = move |t: &str| -> Option<Vec<u8>> {
+                    match t {
+                        "CFF " => Some(cff.clone()),
+                        "maxp" => Some(vh::fontgen::maxp_cff(n_ids)),
+                        _ => None,
+                    }
+                };
+                let (mut x, _) = cross_of(&get, (false, false, false), false);
+                // advances cannot be asked of a bare CFF table: outlines only
+                x["reload"] = reload_value(guarded(|| -> Result<(i64, i64), String> {
+                    let mut cff = ReadScope::new(&bytes).read::<CFF<'_>>().map_err(|e| format!("{:?}", e))?;
+                    let mut o = 0i64;
+                    for g in 0..n_ids {
+                        if cff.visit(g, &mut NullSink(0)).is_ok() {
+                            o += 1;
+                        }
+                    }
+                    Ok((n_ids as i64, o))
+                }));
+                rec.bump(&format!("prince-cff.src:{}", src.kind));
+                rec.tables(case, "prince-cff", args, x);
+                rec.op("prince-cff");
+            } else {
+                rec.written(case, "subset", args, &bytes, true, Some(src));
+                rec.op(if api == "subset" { "subset" } else { "prince-subset" });
+            }
+        }
+        Outcome::Returned(Err(_)) => rec.refused += 1,
+        Outcome::Panicked(m) => rec.panics.push(format!("{} {}: {}", api, name, m)),
+    }
+}
+
+/// Compare the component arguments of source and instance (independent reader on both sides):
+/// which argument-width transitions did this instance exercise?
+fn count_var(rec: &mut Rec, src: &[glyphs::Layout], out: &[glyphs::Layout]) {
+    let fits = |v: i32| (-128..=127).contains(&v);
+    for (s, o) in src.iter().zip(out.iter()) {
+        if s.kind != "composite" || !s.ok || o.kind != "composite" || !o.ok || s.comps.len() != o.comps.len() {
+            continue;
+        }
+        for (cs, co) in s.comps.iter().zip(o.comps.iter()) {
+            if cs.0 & 2 == 0 {
+                rec.bump("var.component.point-matching");
+                continue;
+            }
+            let changed = cs.2 != co.2 || cs.3 != co.3;
+            if !changed {
+                rec.bump("var.component.unchanged");
+                continue;
+            }
+            rec.bump("var.component.varied");
+            if cs.0 & 1 == 0 {
+                match (fits(co.2), fits(co.3)) {
+                    (true, true) => rec.bump("var.byte.stays-in-byte-range"),
+                    (false, true) => rec.bump("var.byte.x-only-leaves-byte-range"),
+                    (true, false) => rec.bump("var.byte.y-only-leaves-byte-range"),
+                    (false, false) => rec.bump("var.byte.both-leave-byte-range"),
+                }
+            } else if fits(co.2) && fits(co.3) {
+                rec.bump("var.word.comes-into-byte-range");
+            } else {
+                rec.bump("var.word.stays-word");
+            }
+            if co.0 & 0x08 != 0 || co.0 & 0x40 != 0 || co.0 & 0x80 != 0 {
+                rec.bump("var.component.varied.transformed");
+            }
+        }
+        if s.comps.len() > 1 {
+            rec.bump("var.glyph.multi-component");
+        }
+    }
+}
+
+fn do_instance(rec: &mut Rec, case: &str, name: &str, provider: &impl FontTableProvider, tuple: &[Fixed], src: &SrcFacts) -> bool {
+    let r = guarded(|| allsorts::variations::instance(provider, tuple));
+    let args = json!({"font": name, "coords": tuple.iter().map(|f| f32::from(*f)).collect::<Vec<_>>()});
+    match r {
+        Outcome::Returned(Ok((bytes, _))) => {
+            let out = rec.written(case, "instance", args, &bytes, true, Some(src));
+            count_var(rec, &src.layouts, &out);
+            rec.op("instance");
+            true
+        }
+        Outcome::Returned(Err(_)) => {
+            rec.refused += 1;
+            false
+        }
+        Outcome::Panicked(m) => {
+            rec.panics.push(format!("instance {}: {}", name, m));
+            false
+        }
+    }
+}
+
+/// hmtx bit 0x10 selects the second set of encoder choices (other triplet / 255UInt16 forms, explicit
+/// bounding boxes, table order by tag, explicit tags, small brotli blocks).
+fn enc_choices(hmtx: u8) -> enc::Choices {
+    let alt = hmtx & 0x10 != 0;
+    enc::Choices {
+        glyf: 0,
+        hmtx: hmtx & 3,
+        trip: if alt { "max" } else { "ref" }.into(),
+        u16p: if alt { "word" } else { "short" }.into(),
+        bbox: if alt { "all" } else { "needed" }.into(),
+        order: if alt { "bytag" } else { "asis" }.into(),
+        tags: if alt { "explicit" } else { "known" }.into(),
+        overlap: alt,
+        chunk: if alt { 4096 } else { 1 << 16 },
+    }
+}
+
+struct W2Result {
+    rebuilt_glyf: usize,
+    src_long: bool,
+    out_long: bool,
+    transformed: bool,
+}
+
+/// Encode `tables` as WOFF2 with the harness's encoder, let allsorts reconstruct the table set,
+/// project it. Returns what was measured (None when allsorts refuses the file).
+fn do_woff2(rec: &mut Rec, case: &str, name: &str, tables: &[(u32, Vec<u8>)], hmtx: u8, src: &SrcFacts, rng: &mut StdRng, then_subset: bool) -> Option<W2Result> {
+    let srcfont = enc::SrcFont { flavor: 0x00010000, tables: tables.to_vec() };
+    let e = enc::encode_woff2(&[srcfont], &enc_choices(hmtx), rng);
+    let info = &e.fonts[0];
+    let bytes = &e.bytes;
+    let r = guarded(|| -> Result<TableMap, String> {
+        let fd = ReadScope::new(bytes).read::<FontData<'_>>().map_err(|e| format!("{:?}", e))?;
+        let p = fd.table_provider(0).map_err(|e| format!("{:?}", e))?;
+        Ok(tables_of(&p))
+    });
+    let args = json!({"font": name, "glyf_transformed": info.glyf_transformed, "hmtx_flags": info.hmtx_flags, "note": info.note});
+    match r {
+        Outcome::Returned(Ok(tm)) => {
+            let get = |t: &str| tm.get(&tag_u32(t)).cloned();
+            let tr = info.glyf_transformed;
+            let (mut x, _) = cross_of(&get, (info.hmtx_flags != 0, tr, tr), tr && src.lsb_clean);
+            let prov = MapProvider { tables: tm.clone() };
+            x["reload"] = reload_value(guarded(|| reload_provider(prov.clone())));
+            let res = W2Result {
+                rebuilt_glyf: tm.get(&tag::GLYF).map(|g| g.len()).unwrap_or(0),
+                src_long: info.src_loca_long,
+                out_long: x["locFormat"] == json!(1),
+                transformed: tr,
+            };
+            rec.tables(case, "woff2", args, x);
+            rec.op("woff2-tables");
+            if tr {
+                let cls = if res.rebuilt_glyf < 131070 {
+                    "<131070"
+                } else if res.rebuilt_glyf == 131070 {
+                    "=131070"
+                } else if res.rebuilt_glyf == 131072 {
+                    "=131072"
+                } else {
+                    ">131072"
+                };
+                rec.bump(&format!("woff2.rebuilt-glyf{}.source-{}", cls, if res.src_long { "long" } else { "short" }));
+                if !res.src_long {
+                    rec.bump(if res.out_long { "woff2.short-source.head-upgraded-to-long" } else { "woff2.short-source.head-stays-short" });
+                }
+            } else {
+                rec.bump("woff2.glyf-not-transformed");
+            }
+            if then_subset {
+                // the reconstructed provider as the source of further writing operations
+                let n = be16(tm.get(&tag::MAXP).map(|v| v.as_slice()).unwrap_or(&[]), 4).unwrap_or(0);
+                let mut ids: Vec<u16> = (0..n.min(6)).collect();
+                ids.extend(src.composites.iter().filter(|g| **g >= 6).take(10));
+                if n > 8 {
+                    ids.push(n - 2);
+                }
+                ids.dedup();
+                let s2 = measure(&get);
+                do_subset(rec, &format!("{}/subset", case), name, &prov, &ids, "subset", &s2);
+                let tags: Vec<u32> = tm.keys().cloned().collect();
+                do_whole_font(rec, &format!("{}/whole", case), name, &prov, &tags);
+            }
+            Some(res)
+        }
+        Outcome::Returned(Err(_)) => {
+            rec.refused += 1;
+            None
+        }
+        Outcome::Panicked(m) => {
+            rec.panics.push(format!("woff2 {}: {}", name, m));
+            None
+        }
+    }
+}
+
+fn named(t: &synth::Tables) -> Vec<(u32, Vec<u8>)> {
+    t.iter().map(|(k, v)| (tag_u32(k), v.clone())).collect()
+}
+
+fn getter_of(t: &synth::Tables) -> impl Fn(&str) -> Option<Vec<u8>> + '_ {
+    move |k: &str| t.iter().find(|x| x.0 == k).map(|x| x.1.clone())
+}
+
+/// The synthesized families. Everything here runs in every tier.
+fn record_synth(rec: &mut Rec, rng: &mut StdRng, deep: bool) {
+    // ---- shapes -------------------------------------------------------------------------------
+    for (long, style) in [(false, 0u8), (true, 1u8)] {
+        let t = synth::shapes_font(long, style);
+        let name = format!("synth-shapes-{}", if long { "long" } else { "short" });
+        let src = measure(&getter_of(&t));
+        let prov = MapProvider { tables: named(&t).into_iter().collect() };
+        let n = be16(&prov.tables[&tag::MAXP], 4).unwrap();
+        let tags: Vec<u32> = prov.tables.keys().cloned().collect();
+        do_whole_font(rec, &format!("{}/whole", name), &name, &prov, &tags);
+        let all: Vec<u16> = (0..n).collect();
+        let mut rev: Vec<u16> = (1..n).rev().collect();
+        rev.insert(0, 0);
+        let mut comps = vec![0u16];
+        comps.extend(src.composites.iter());
+        let mut lists: Vec<Vec<u16>> = vec![vec![0], all, rev, comps, vec![0, 12], vec![0, 10, 9, 8, 7, 6, 5, 4, 3]];
+        for _ in 0..2 {
+            let mut pool: Vec<u16> = (1..n).collect();
+            pool.shuffle(rng);
+            let mut l = vec![0u16];
+            l.extend(pool.iter().take(rng.gen_range(1..n as usize)));
+            lists.push(l);
+        }
+        for (li, ids) in lists.iter().enumerate() {
+            do_subset(rec, &format!("{}/subset{}", name, li), &name, &prov, ids, "subset", &src);
+        }
+        for (ai, api) in ["prince:unrestricted", "prince:macroman", "prince:omit", "prince:supplied"].iter().enumerate() {
+            do_subset(rec, &format!("{}/{}", name, api), &name, &prov, &lists[(ai + 1) % lists.len()], api, &src);
+        }
+        // and through WOFF2 (small: head stays short / long source stays long)
+        do_woff2(rec, &format!("{}/woff2", name), &name, &named(&t), if long { 0 } else { 1 }, &src, rng, true);
+    }
+    // ---- var ----------------------------------------------------------------------------------
+    for variant in 0..2u8 {
+        let t = synth::var_font(variant);
+        let name = format!("synth-var-{}", if variant == 1 { "long" } else { "short" });
+        let src = measure(&getter_of(&t));
+        let prov = MapProvider { tables: named(&t).into_iter().collect() };
+        let mut coords: Vec<(f32, f32)> = vec![(0.0, 0.0), (1.0, 0.0), (0.5, 0.0), (0.25, 0.0), (-1.0, 0.0), (0.0, 1.0), (1.0, 1.0), (-1.0, -1.0), (0.47, 0.3)];
+        for _ in 0..(if deep { 60 } else { 6 }) {
+            coords.push((rng.gen_range(-1.0..=1.0), rng.gen_range(-1.0..=1.0)));
+        }
+        if deep {
+            // a grid over the first axis: every rounding step of the offsets around the byte boundary
+            for k in 0..=40 {
+                coords.push((k as f32 / 40.0, 0.0));
+                coords.push((k as f32 / 40.0, k as f32 / 40.0));
+            }
+        }
+        let mut ok = 0;
+        for (ci, c) in coords.iter().enumerate() {
+            if do_instance(rec, &format!("{}/instance{}", name, ci), &name, &prov, &[Fixed::from(c.0), Fixed::from(c.1)], &src) {
+                ok += 1;
+            }
+        }
+        if ok > 0 {
+            rec.bump("var.synth-fonts-instanced");
+        }
+        // the same font through subset (composites renumbered, variation tables dropped)
+        let mut ids = vec![0u16];
+        ids.extend(src.composites.iter().rev());
+        do_subset(rec, &format!("{}/subset", name), &name, &prov, &ids, "subset", &src);
+    }
+    // ---- big ----------------------------------------------------------------------------------
+    // 141 glyphs of 200 points: the source glyf is ~ 86 KiB (short loca); allsorts rebuilds simple
+    // glyphs with word deltas, ~ 143 KiB. The instruction bytes of the last glyph move the rebuilt
+    // size to the exact boundary: measured first with no instructions, then adjusted.
+    let probe = |k: usize, p: usize, instr: usize, rng: &mut StdRng| -> Option<usize> {
+        let t = synth::big_font(k, p, instr, false);
+        let mut scratch = Rec::new("/dev/null");
+        let src = SrcFacts::default();
+        do_woff2(&mut scratch, "probe", "probe", &named(&t), 0, &src, rng, false).map(|r| r.rebuilt_glyf)
+    };
+    let mut plans: Vec<(String, usize, usize, usize)> = vec![("small".into(), 20, 60, 0), ("above".into(), 141, 200, 0)];
+    // a base that rebuilds to a little below the boundary, then exact fills
+    if let Some(l0) = probe(128, 200, 0, rng) {
+        let mut targets = vec![("eq131070", 131070usize), ("eq131072", 131072usize), ("below", 131000usize)];
+        if deep {
+            targets.extend([("eq131068", 131068usize), ("eq131074", 131074), ("eq131076", 131076), ("eq140000", 140000)]);
+        }
+        for (label, target) in targets {
+            if target >= l0 && (target - l0) % 2 == 0 && target - l0 < 60000 {
+                plans.push((label.into(), 128, 200, target - l0));
+            }
+        }
+    }
+    for (label, k, p, instr) in plans {
+        let t = synth::big_font(k, p, instr, false);
+        let name = format!("synth-big-{}", label);
+        let src = measure(&getter_of(&t));
+        do_woff2(rec, &format!("{}/woff2", name), &name, &named(&t), 0, &src, rng, true);
+    }
+}
+
+/// Priority of a repository font for a small sample (as before the survey existed).
+fn old_priority(p: &str) -> u8 {
+    if p.contains("/aots/") {
+        3
+    } else if p.contains("/variable/") || p.ends_with(".woff2") {
+        0
+    } else if p.ends_with(".otf") {
+        1
+    } else {
+        2
+    }
+}
+
+struct Surveyed {
+    path: String,
+    facts: SrcFacts,
+    glyf_len: usize,
+    flavor_tt: bool,
+}
+
+fn survey_font(path: &str) -> Option<Surveyed> {
+    let data = std::fs::read(path).ok()?;
+    if data.len() <= 12 {
+        return None;
+    }
+    let r = guarded(|| -> Option<(SrcFacts, usize)> {
+        let fd = ReadScope::new(&data).read::<FontData<'_>>().ok()?;
+        let provider = fd.table_provider(0).ok()?;
+        let get = |t: &str| provider.table_data(tag_u32(t)).ok().flatten().map(|c| c.to_vec());
+        let mut f = measure(&get);
+        if let Some(d) = get("CFF ") {
+            if let Ok(cff) = ReadScope::new(&d).read::<CFF<'_>>() {
+                if cff.fonts.first().map(|f| f.is_cid_keyed()).unwrap_or(false) {
+                    f.features.insert("kind:cff-cid".into());
+                }
+            }
+        }
+        let ext = path.rsplit('.').next().unwrap_or("").to_ascii_lowercase();
+        f.features.insert(format!("container:{}", ext));
+        Some((f, get("glyf").map(|g| g.len()).unwrap_or(0)))
+    });
+    match r {
+        Outcome::Returned(Some((facts, glyf_len))) => {
+            let flavor_tt = data.len() > 4 && (&data[0..4] == [0, 1, 0, 0] || &data[0..4] == b"true");
+            Some(Surveyed { path: path.to_string(), facts, glyf_len, flavor_tt })
+        }
+        _ => None,
+    }
+}
+
+fn record(seed: u64, max_fonts: usize, out: &str, all_woff2: bool) {
+    let mut rng = StdRng::seed_from_u64(seed);
+    let mut rec = Rec::new(out);
+    record_synth(&mut rec, &mut rng, all_woff2);
+
+    // ---- repository fonts: survey, then choose by measured features ---------------------------
+    let mut paths = repo_fonts();
+    paths.shuffle(&mut rng);
+    let mut surveyed: Vec<Surveyed> = paths.iter().filter_map(|p| survey_font(p)).collect();
+    let mut chosen: Vec<usize> = Vec::new();
+    let mut covered: BTreeSet<String> = BTreeSet::new();
+    // greedy cover: a font is taken when it shows a feature no chosen font has (small fonts first
+    // among equals is not attempted: the order is the seeded shuffle)
+    for (k, s) in surveyed.iter().enumerate() {
+        if chosen.len() >= max_fonts {
             break;
         }
+        if s.facts.features.iter().any(|f| !covered.contains(f)) {
+            covered.extend(s.facts.features.iter().cloned());
+            chosen.push(k);
+        }
+    }
+    let mut rest: Vec<usize> = (0..surveyed.len()).filter(|k| !chosen.contains(k)).collect();
+    rest.sort_by_key(|&k| old_priority(&surveyed[k].path));
+    for k in rest {
+        if chosen.len() >= max_fonts {
+            break;
+        }
+        chosen.push(k);
+    }
+    let mut used = 0;
+    for &k in &chosen {
+        let path = surveyed[k].path.clone();
         let data = match std::fs::read(&path) {
-            Ok(d) if d.len() > 12 => d,
-            _ => continue,
+            Ok(d) => d,
+            Err(_) => continue,
         };
         let name = path.rsplit('/').next().unwrap().to_string();
         let fd = match ReadScope::new(&data).read::<FontData<'_>>() {
@@ -235,20 +865,27 @@ fn record(seed: u64, max_fonts: usize, out: &str) {
             Err(_) => continue,
         };
         used += 1;
+        let src = surveyed[k].facts.clone();
+        for f in &src.features {
+            rec.bump(&format!("repo-source.{}", f));
+        }
         let tags = provider.table_tags().unwrap_or_default();
         if path.ends_with(".woff2") {
-            // tables reconstructed from WOFF2: cross-table half only
-            let get = |t: &str| provider.table_data(tag_u32(t)).ok().flatten().map(|c| c.to_vec());
-            let mut x = cross_facts(&get);
-            x["reload"] = no_reload();
-            // tables allsorts reconstructs from their transformed form are built by it
+            // tables reconstructed from a repository WOFF2 file: cross-table half + reload
+            let tm = tables_of(&provider);
+            let get = |t: &str| tm.get(&tag_u32(t)).cloned();
+            let (mut hm, mut gl) = (false, false);
             if let FontData::Woff2(w2) = &fd {
                 let tr = |t: u32| w2.find_table_entry(t, 0).map(|e| e.transform_length.is_some()).unwrap_or(false);
-                x["built"] = json!({"hmtx": tr(tag::HMTX), "loca": tr(tag::LOCA) || tr(tag::GLYF)});
+                hm = tr(tag::HMTX);
+                gl = tr(tag::LOCA) || tr(tag::GLYF);
             }
-            rec.i += 1;
-            rec.w.write(&json!({"i": rec.i, "case": format!("{}/woff2", name), "ev": "Tables", "a": {"op": "woff2"}, "o": {"cross": x}}));
-            *ops.entry("woff2-tables".into()).or_default() += 1;
+            let (mut x, _) = cross_of(&get, (hm, gl, gl), false);
+            let prov = MapProvider { tables: tm.clone() };
+            x["reload"] = reload_value(guarded(|| reload_provider(prov.clone())));
+            rec.tables(&format!("{}/woff2", name), "woff2", json!({"font": name, "glyf_transformed": gl, "hmtx_transformed": hm}), x);
+            rec.op("woff2-tables");
+            rec.bump("woff2.repository-file");
         }
         let n_glyphs = provider
             .table_data(tag::MAXP)
@@ -265,19 +902,10 @@ fn record(seed: u64, max_fonts: usize, out: &str) {
                 .cloned()
                 .filter(|t| variant == 0 || required.contains(&tag_str(*t).as_str()) || rng.gen_bool(0.5))
                 .collect();
-            let r = guarded(|| whole_font(&provider, &sel));
-            let args = json!({"font": name, "tags": sel.iter().map(|t| tag_str(*t)).collect::<Vec<_>>()});
-            match r {
-                Outcome::Returned(Ok(bytes)) => {
-                    rec.written(&format!("{}/whole{}", name, variant), "whole_font", args, &bytes, true);
-                    *ops.entry("whole_font".into()).or_default() += 1;
-                }
-                Outcome::Returned(Err(_)) => rec.refused += 1,
-                Outcome::Panicked(m) => rec.panics.push(format!("whole_font {}: {}", name, m)),
-            }
+            do_whole_font(&mut rec, &format!("{}/whole{}", name, variant), &name, &provider, &sel);
         }
         // subset: a few glyph lists
-        if n_glyphs > 0 && (provider.has_table(tag::GLYF) || provider.has_table(tag::CFF) || provider.has_table(tag::CFF2)) {
+        if n_glyphs > 0 && src.kind != "none" {
             let mut lists: Vec<Vec<u16>> = vec![vec![0]];
             let k = rng.gen_range(2..40.min(n_glyphs as usize + 1).max(3));
             lists.push((0..n_glyphs.min(k as u16)).collect());
@@ -291,17 +919,31 @@ fn record(seed: u64, max_fonts: usize, out: &str) {
                 l.extend(pool.iter().take(300).cloned());
                 lists.push(l);
             }
+            if !src.composites.is_empty() {
+                // composites first, so that component renumbering is exercised on every font that has any
+                let mut c = src.composites.clone();
+                c.shuffle(&mut rng);
+                let mut l = vec![0u16];
+                l.extend(c.iter().filter(|g| **g != 0).take(30));
+                lists.push(l);
+            }
+            if src.features.contains("nhm<n") {
+                // glyphs past numberOfHMetrics
+                let mut l = vec![0u16];
+                l.extend((1..n_glyphs).rev().take(8));
+                lists.push(l);
+            }
             for (li, ids) in lists.iter().enumerate() {
-                let r = guarded(|| subset(&provider, ids));
-                let args = json!({"font": name, "n_ids": ids.len(), "ids_head": ids.iter().take(12).collect::<Vec<_>>()});
-                match r {
-                    Outcome::Returned(Ok(bytes)) => {
-                        rec.written(&format!("{}/subset{}", name, li), "subset", args, &bytes, true);
-                        *ops.entry("subset".into()).or_default() += 1;
-                    }
-                    Outcome::Returned(Err(_)) => rec.refused += 1,
-                    Outcome::Panicked(m) => rec.panics.push(format!("subset {}: {}", name, m)),
-                }
+                do_subset(&mut rec, &format!("{}/subset{}", name, li), &name, &provider, ids, "subset", &src);
+            }
+            let apis: &[&str] = if src.kind == "glyf" {
+                &["prince:unrestricted", "prince:macroman", "prince:omit"]
+            } else {
+                &["prince:unrestricted", "prince:unrestricted:cid"]
+            };
+            for (ai, api) in apis.iter().enumerate() {
+                let ids = &lists[(ai + 2) % lists.len()];
+                do_subset(&mut rec, &format!("{}/{}", name, api), &name, &provider, ids, api, &src);
             }
         }
         // instance: variable fonts
@@ -313,42 +955,99 @@ fn record(seed: u64, max_fonts: usize, out: &str) {
                     f.axes().map(|a| (f32::from(a.min_value), f32::from(a.default_value), f32::from(a.max_value))).collect()
                 }))
                 .unwrap_or_default();
-            for variant in 0..3 {
+            for variant in 0..4 {
                 let tuple: Vec<Fixed> = axes
                     .iter()
                     .map(|(lo, de, hi)| match variant {
                         0 => *de,
                         1 => *hi,
+                        2 => *lo,
                         _ => lo + (hi - lo) * rng.gen::<f32>(),
                     })
                     .map(Fixed::from)
                     .collect();
-                let r = guarded(|| allsorts::variations::instance(&provider, &tuple));
-                let args = json!({"font": name, "variant": variant});
-                match r {
-                    Outcome::Returned(Ok((bytes, _))) => {
-                        rec.written(&format!("{}/instance{}", name, variant), "instance", args, &bytes, true);
-                        *ops.entry("instance".into()).or_default() += 1;
-                    }
-                    Outcome::Returned(Err(_)) => rec.refused += 1,
-                    Outcome::Panicked(m) => rec.panics.push(format!("instance {}: {}", name, m)),
+                do_instance(&mut rec, &format!("{}/instance{}", name, variant), &name, &provider, &tuple, &src);
+            }
+        }
+    }
+    // ---- repository TrueType fonts through the harness's WOFF2 encoder -------------------------
+    // chosen by the MEASURED size of the glyf table allsorts rebuilds: one short-loca source that
+    // has to be upgraded to long, one that stays short (all of them with `all`).
+    surveyed.sort_by_key(|s| std::cmp::Reverse(s.glyf_len.min(131070)));
+    let (mut up, mut stay, mut tried) = (0, 0, 0);
+    for s in &surveyed {
+        if !(s.flavor_tt && s.facts.kind == "glyf" && s.glyf_len > 0) || s.path.contains("/aots/") {
+            continue;
+        }
+        let short = s.facts.features.contains("loca:short");
+        if !all_woff2 {
+            // quick: only short-loca sources, biggest first, until both kinds were seen
+            if !short || (up >= 1 && stay >= 1) || tried >= 12 {
+                continue;
+            }
+            if up >= 1 && s.glyf_len > 60000 {
+                continue; // looking for one that stays below now
+            }
+        }
+        let data = match std::fs::read(&s.path) {
+            Ok(d) => d,
+            Err(_) => continue,
+        };
+        let dir = match vh::fontgen::read_sfnt_dir(&data, 0) {
+            Some(d) => d,
+            None => continue,
+        };
+        let tables: Vec<(u32, Vec<u8>)> = dir
+            .records
+            .iter()
+            .filter_map(|r| data.get(r.2 as usize..(r.2 as usize).checked_add(r.3 as usize)?).map(|b| (r.0, b.to_vec())))
+            .collect();
+        let name = s.path.rsplit('/').next().unwrap().to_string();
+        tried += 1;
+        if all_woff2 {
+            do_woff2(&mut rec, &format!("{}/reencoded-woff2-alt", name), &name, &tables, 0x11, &s.facts, &mut rng, false);
+        }
+        if let Some(r) = do_woff2(&mut rec, &format!("{}/reencoded-woff2", name), &name, &tables, 0, &s.facts, &mut rng, !all_woff2 || s.glyf_len > 60000) {
+            if r.transformed && !r.src_long {
+                if r.out_long {
+                    up += 1;
+                    rec.bump("woff2.repository-reencoded.upgraded");
+                } else {
+                    stay += 1;
+                    rec.bump("woff2.repository-reencoded.stays-short");
                 }
             }
         }
     }
     let n = rec.w.n;
     rec.w.finish();
-    println!("{}", json!({"events": n, "fonts": used, "ops": ops, "refused": rec.refused, "panics": rec.panics.len(),
+    println!("{}", json!({"events": n, "fonts": used, "surveyed": surveyed.len(), "ops": rec.ops, "families": rec.fam,
+                          "features_covered_by_chosen_fonts": covered, "refused": rec.refused, "panics": rec.panics.len(),
                           "panic_samples": rec.panics.iter().take(5).collect::<Vec<_>>()}));
+}
+
+fn survey() {
+    for p in repo_fonts() {
+        if let Some(s) = survey_font(&p) {
+            println!("{}", json!({"font": p, "glyf_len": s.glyf_len, "tt": s.flavor_tt, "composites": s.facts.composites.len(),
+                                  "features": s.facts.features}));
+        }
+    }
 }
 
 fn main() {
     let args: Vec<String> = std::env::args().collect();
     match args.get(1).map(|s| s.as_str()) {
         Some("replay") => replay(&args[2], &args[3]),
-        Some("record") => record(args[2].parse().expect("seed"), args[3].parse().expect("max fonts"), &args[4]),
+        Some("record") => record(
+            args[2].parse().expect("seed"),
+            args[3].parse().expect("max fonts"),
+            &args[4],
+            args.get(5).map(|s| s == "all").unwrap_or(false),
+        ),
+        Some("survey") => survey(),
         _ => {
-            eprintln!("usage: c09_written replay <cases> <trace> | record <seed> <max_fonts> <trace>");
+            eprintln!("usage: c09_written replay <cases> <trace> | record <seed> <max_fonts> <trace> [all] | survey");
             std::process::exit(2);
         }
     }
